@@ -498,8 +498,13 @@ class Script:
         else:
             context = module_context.create_context(leaf)
 
-        while context.name is None:
-            context = context.parent_context  # comprehensions
+        while context.name is None or context.tree_node.type == 'lambdef':
+            if context.name is None:
+                context = context.parent_context  # comprehensions
+            else:
+                # Lambdas: continue with the context the lambda is written in
+                # (the parent_context of a function value skips classes).
+                context = module_context.create_context(context.tree_node)
 
         definition = classes.Name(self._inference_state, context.name)
         while definition.type != 'module':
